@@ -26,7 +26,7 @@ UNIT = dict(
     types=[
         ("enum", "FallbackError", "error"),
         ("enum", "FallbackStrategy", "lib"),
-        ("struct", "FallbackConfig", "config", {"drop": ["name", "event_listeners"]}),
+        ("struct", "FallbackConfig", "config", {"drop": ["name"]}),
         ("struct", "Fallback", "lib"),
     ],
 )
